@@ -293,6 +293,18 @@ def import_cases(d):
                 if r[0] == "raise" and now != before:
                     return dict(operation=f"import_toml(merge={merge})", file=f"{dname} at entry {pos} of {len(entries)}", result=repr(r),
                                 violated=f"a failed import left the store changed: before {sorted(pins(before))}, now {sorted(pins(now))}")
+                if r[0] == "raise":
+                    # the SAME store object goes on being used: what it shows and what a later operation makes durable
+                    seen = {(h["hostname"], int(h["port"])): h["fingerprint"] for h in db.list_hosts()}
+                    if seen != pins(before):
+                        return dict(operation=f"import_toml(merge={merge}) failed, then list_hosts() on the same object", file=f"{dname} at entry {pos} of {len(entries)}",
+                                    violated=f"the object shows a partly applied import: {sorted(seen)} instead of {sorted(pins(before))}")
+                    db.trust("later.example", 1965, cert("A"))
+                    want = dict(pins(before))
+                    want[("later.example", 1965)] = fp("A")
+                    if pins(table(path)) != want:
+                        return dict(operation=f"import_toml(merge={merge}) failed, then trust(later.example) on the same object", file=f"{dname} at entry {pos} of {len(entries)}",
+                                    violated=f"the later operation made the failed import's leftovers durable: {sorted(pins(table(path)))} instead of {sorted(want)}")
         # failing conflict callback
         f = d / "in.toml"
         write_toml(f, good)
